@@ -4,6 +4,7 @@ result types: every Write call decoded by an independent strict decoder and comp
 import json
 import os
 import vf
+from checks import wire_tier as wt
 
 LEVEL = "model_checking"
 LEVEL_TEXT = ("TLC checks Logger for every result history over 3 identities up to length 5, plain and unique, cancel anywhere: InOrder, OnlyExpected (faithful, "
@@ -55,5 +56,8 @@ def run(ctx):
         ctx.step("selftest", corrupted="last code point of one decoded line", rejected=True)
     n, _ = vf.validate_runs(ctx, "LoggerTrace", trace, keyfn=lambda run, evt: "logger:%s:%s" % (evt.get("ev"), evt.get("what", "")), label="logger")
     ctx.count(0, [("run", i) for i in range(n)])
+    # socket-level tier: live ARP with the unique logger on the wire: a host that answers in every pass is printed once
+    n3, rej = wt.run_wire(ctx, select=lambda s: s["name"] == "arp-live", label="c14w", focus="live")
+    wt.report(ctx, "C14", rej)
     for r0 in runs[:2]:
         ctx.sample([{k: (v if k != "c" else v[:30]) for k, v in e.items()} for e in r0[:12]])
